@@ -10,8 +10,8 @@
 
 const char *verif_property = "C02";
 const char *verif_class_names[] = { "refused_then_retried", "two_in_flight", "deferred_notification", "size_at_limit", "size_beyond_limit", "fc_toggled_midburst",
-	"shm", "socket", "event_readable_checked", "response_from_callback", "response_from_outside", "three_clients", "ring_full_refusal", "sendv", "client_send_blocked_then_rescued", "receive_buffer_too_small", NULL };
-enum { K_RETRY, K_INFLIGHT, K_DEFER, K_ATLIMIT, K_BEYOND, K_FC, K_SHM, K_SOCK, K_READABLE, K_RESPCB, K_RESPOUT, K_THREE, K_FULL, K_SENDV, K_RESCUED, K_SMALLBUF };
+	"shm", "socket", "event_readable_checked", "response_from_callback", "response_from_outside", "three_clients", "ring_full_refusal", "sendv", "client_send_blocked_then_rescued", "receive_buffer_too_small", "events_drained_under_flow_control", NULL };
+enum { K_RETRY, K_INFLIGHT, K_DEFER, K_ATLIMIT, K_BEYOND, K_FC, K_SHM, K_SOCK, K_READABLE, K_RESPCB, K_RESPOUT, K_THREE, K_FULL, K_SENDV, K_RESCUED, K_SMALLBUF, K_EVFC };
 const char *verif_rule =
 	"case = transport, negotiated maximum size, 1-3 clients and an op list: client send/sendv/recv/event_recv (timeout 0), server step (dispatch one ready descriptor chosen by the case), "
 	"server response/event of generated length from inside the message callback or from outside, rate-limit changes (OFF, OFF_2, NORMAL, FAST, SLOW), fc_enable_max changes, shrinking the "
@@ -287,6 +287,27 @@ extern "C" int verif_case(const uint8_t *data, size_t size, struct verif_report 
 		}
 	}
 	/* ---- drain: everything accepted must come out, nothing else */
+	if (!r->fail) {
+		/* phase 0: events do not depend on the request rate limit - whatever it is set to now, every queued event must reach the client
+		   once the server has had its turns (deferred notifications are flushed from the server's loop when the socket has room again) */
+		for (int round = 0; round < 200 && !r->fail; round++) {
+			bool progress = false;
+			for (int k = 0; k < 24; k++) server_step((unsigned)k);	/* every ready descriptor gets its turn (a flow-controlled one stays ready without making progress) */
+			for (int i = 0; i < NC && !r->fail; i++)
+				while (!C[i].evt.empty() && !r->fail) { size_t b = C[i].evt.size(); client_recv(C[i], true); if (C[i].evt.size() == b) break; progress = true; }
+			if (!progress) break;
+		}
+		for (int i = 0; i < NC && !r->fail; i++) if (!C[i].evt.empty()) {
+			int fd = -1; qb_ipcc_fd_get(C[i].cl, &fd);
+			struct pollfd p = { fd, POLLIN, 0 };
+			int n = poll(&p, 1, 0);
+			{ struct qb_ipcs_connection *sc = (struct qb_ipcs_connection *)C[i].sv; int ev = -1; for (auto &e : DISP) if (sc && e.fd == sc->setup.u.us.sock) ev = e.events;
+			  VLOG(r, "   server side: outstanding_notifiers %d, poll_events 0x%x, registered events 0x%x, fc_enabled %d\n", sc ? sc->outstanding_notifiers : -1, sc ? sc->poll_events : -1, ev, sc ? sc->fc_enabled : -1); }
+			VFAIL(r, n > 0 && (p.revents & POLLIN) ? "event-not-delivered" : "event-fd-not-readable", "client %d has %zu accepted event(s) queued, the server had its turns (flow control %d), but %s", i, C[i].evt.size(), (int)fc_state,
+			      n > 0 && (p.revents & POLLIN) ? "event_recv does not hand them out" : "the descriptor it polls is not readable and event_recv returns nothing");
+		}
+		if (fc_state) VCLASS(r, K_EVFC);
+	}
 	if (!r->fail) {
 		qb_ipcs_request_rate_limit(S, QB_IPCS_RATE_NORMAL);
 		for (int round = 0; round < 400 && !r->fail; round++) {
